@@ -265,19 +265,33 @@ example : (20000 : Nat) ≤ 2 ^ 63 ∧ (1 : Nat) ≤ 10 ∧ Ranges.WF [1, 3] = t
        .parent 3 false true false [1, 3], .parent 1 false true true [1, 3],
        .leaf 0 2048 false [1], .leaf 2 2048 false [1, 3]] := by decide
 
-/-- **group-exact coverage** (no query leaves below the group level, `ml ≤ bs`; this is what
-the outboard encoders/decoders use): a chunk of the blob is covered iff its chunk group contains
-a selected chunk — the leaves cover exactly the chunk groups the selection touches -/
-theorem coverage_groups (hs : size ≤ 2 ^ 63) (hbs : bs ≤ 10) (hml : ml ≤ bs)
+/-- **group-exact coverage**, for every block size and every `min_full_level`: a chunk of the
+blob is covered iff its chunk group contains a selected chunk — the leaves cover exactly the chunk
+groups the selection touches -/
+theorem coverage_groups (hs : size ≤ 2 ^ 63) (hbs : bs ≤ 10)
     (hwf : Ranges.WF q = true) (hp : Tree.prePartialChunks ⟨size, bs⟩ q ml = some p) {c : Nat}
     (hc : c < Spec.nChunks size) :
     covered p c ↔ ∃ x, x / 2 ^ bs = c / 2 ^ bs ∧ Spec.selected size q x = true := by
   rw [eq_plan hs hbs hp]
-  exact plan_cover_groups size bs ml hs hbs hml q hwf c hc
+  exact plan_cover_groups_any size bs ml hs hbs q hwf c hc
 
-example : (20000 : Nat) ≤ 2 ^ 63 ∧ (1 : Nat) ≤ 10 ∧ (0 : Nat) ≤ 1 ∧ Ranges.WF [1, 3] = true ∧
+example : (20000 : Nat) ≤ 2 ^ 63 ∧ (1 : Nat) ≤ 10 ∧ Ranges.WF [1, 3] = true ∧
     (3 : Nat) < Spec.nChunks 20000 ∧ (Tree.prePartialChunks ⟨20000, 1⟩ [1, 3] 0).isSome = true := by
   decide
+
+/-- each leaf is a non-empty run of whole chunk groups clipped to the blob (`[s, min e' N)` with
+`s`, `e'` multiples of the group size); a leaf whose ranges are not "all" is a single group -/
+theorem leaf_groups (hs : size ≤ 2 ^ 63) (hbs : bs ≤ 10)
+    (hp : Tree.prePartialChunks ⟨size, bs⟩ q ml = some p) {s z : Nat} {r : Bool} {x : Ranges}
+    (hm : Chunk.leaf s z r x ∈ p) :
+    s % 2 ^ bs = 0 ∧ ∃ e', e' % 2 ^ bs = 0 ∧ s < e' ∧
+      s + max 1 (chunksOf z) = min e' (Spec.nChunks size) ∧
+      (Ranges.isAll x = true ∨ e' = s + 2 ^ bs) := by
+  rw [eq_plan hs hbs hp] at hm
+  exact leaf_aligned_span (shifted_geo size bs hs hbs) _ _ _ s z r x hm
+
+example : (20000 : Nat) ≤ 2 ^ 63 ∧ (1 : Nat) ≤ 10 ∧
+    (Tree.prePartialChunks ⟨20000, 1⟩ [1, 3] 0).isSome = true := by decide
 
 /-- every leaf whose attached ranges are "all" (in particular every query leaf) consists of
 selected chunks only -/
@@ -330,19 +344,16 @@ meaning is involved — every well-formed query):
   leaves_increasing, leaves_increasing_response,
   coverage_complete, coverage_sound            (any bs, ml: selected ⊆ covered; every leaf touches
                                                 the selection),
-  coverage_groups                              (ml ≤ bs: covered = chunk groups touched, exact),
+  coverage_groups                              (any bs, ml: covered = chunk groups touched, exact),
+  leaf_groups                                  (every leaf = whole groups clipped to the blob; a
+                                                leaf that is not "all" is one group),
   coverage_full_leaf                           (a leaf with ranges "all" is selected entirely),
   coverage_exact, coverage_exact_response      (bs = 0 / response plan: covered = selected, exact).
 
 Partial: none.
 
-OPEN (not attempted here):
-  -- OPEN: theorem coverage_mixed : for `ml > bs > 0` the exact description of the covered set
-  --   (union of the chunk groups touched, where fully selected subtrees of level < ml are merged
-  --   into one leaf); `coverage_complete` + `coverage_sound` + `coverage_full_leaf` bound it from
-  --   both sides but do not state the granularity of a non-"all" leaf.  Missing: a variant of
-  --   `PlanPre.leaf_group_span` for leaves whose ranges are not "all" when `ml > bs`.
-  -- The post-order plan (`Tree.postOrderChunks`) is the subject of `Props/C15Post.lean`.
+OPEN: none for the pre-order half.  (The post-order plan `Tree.postOrderChunks` is the subject of
+`Props/C15Post.lean`.)
 
 Remarks on the model: none of the definitions in `BaoModel/Iter.lean` used here looked wrong.
 `PrePartial.new` already contains the repair of defect D2 (empty query ⇒ empty stack); without it
